@@ -370,3 +370,27 @@ exact: verify_shares_reconstruct_complete.
 Qed.
 
 End Refinement.
+
+(* ------------------------------------------------------------------------------------------ *)
+(* Non-vacuity: closed evaluations at the BLS12-381 scalar order *)
+
+Example ex_lagrange_123 : lagrange_coeffs r [:: 1; 2; 3]%ZZ = [:: 3; Z.sub r 3; 1]%ZZ.
+Proof. by vm_compute. Qed.
+
+Example ex_split_recover :
+  let ys := splitZ r [:: 5; 7; 11]%ZZ 5 in
+  (ys == [:: 23; 63; 125; 209; 315]%ZZ) &&
+  (recoverZ r (sub_shares ys [:: 0; 2; 4]%N) == 5%ZZ) && (recoverZ r (sub_shares ys [:: 1; 2; 3; 4]%N) == 5%ZZ) &&
+  (recoverZ r (sub_shares ys [:: 0; 1]%N) != 5%ZZ).
+Proof. by vm_compute. Qed.
+
+Example ex_vsr :
+  let ys := splitZ r [:: 5; 7; 11]%ZZ 6 in
+  [&& vsr_checkZ r 5%ZZ ys 3, vsr_checkZ r 5%ZZ ys 4, ~~ vsr_checkZ r 5%ZZ ys 2, ~~ vsr_checkZ r 6%ZZ ys 3
+    & ~~ vsr_checkZ r 5%ZZ (set_nth 0%ZZ ys 4 316%ZZ) 3].
+Proof. by vm_compute. Qed.
+
+Example ex_split_insecure_retry :
+  split_insecure r 5%ZZ 3 2 [:: r; Z.add r 1; 7]%ZZ = Some [:: 12; 19; 26]%ZZ /\
+  split_insecure r 5%ZZ 3 1 [:: 7]%ZZ = None /\ split_insecure r r 3 2 [:: 7]%ZZ = None.
+Proof. by vm_compute. Qed.
